@@ -148,6 +148,9 @@ type LatencyMetrics struct {
 	Min time.Duration `json:"min"`
 
 	estimator estimator
+	// seen is whether a latency has been added yet, as a Min of zero can be
+	// an observed latency rather than the unset value.
+	seen bool
 }
 
 // Add adds the given latency to the latency metrics.
@@ -156,9 +159,10 @@ func (l *LatencyMetrics) Add(latency time.Duration) {
 	if l.Total += latency; latency > l.Max {
 		l.Max = latency
 	}
-	if latency < l.Min || l.Min == 0 {
+	if latency < l.Min || !l.seen {
 		l.Min = latency
 	}
+	l.seen = true
 	l.estimator.Add(float64(latency))
 }
 
